@@ -41,9 +41,9 @@ class Ctx:
             if b['def_kind'] == 'Closure':
                 self.pure.discard(k)     # closures are part of their parent's logic: always inlined
                 continue
-            if b['def_kind'] == 'Fn' and len([x for x in b['blocks'] if not x['cleanup']]) == 1 and \
-                    all(x['term']['k'] != 'call' for x in b['blocks']):
-                self.pure.discard(k)
+            if (b['def_kind'] == 'Fn' or (b['def_kind'] == 'AssocFn' and not b.get('impl_trait'))) and \
+                    len([x for x in b['blocks'] if not x['cleanup']]) == 1 and all(x['term']['k'] != 'call' for x in b['blocks']):
+                self.pure.discard(k)        # (inherent one-block constructors / getters included; trait accessors are roles)
             # argument-less helpers name a constant or a "now - C" style expression: what they compute matters to the
             # rules (age limits, permission bits), and there is nothing to gain from summarising them
             if b['def_kind'] == 'Fn' and b['arg_count'] == 0 and not [c for c in self.cg.local_edges.get(k, ()) if c in self.B and self.B[c]['def_kind'] != 'Closure']:
@@ -70,6 +70,14 @@ class Ctx:
             if b['def_kind'] in ('Fn', 'AssocFn') and not b.get('impl_trait') and self.T[b['locals'][0]['ty']]['k'] == 'bool' and \
                     any(x in self.T[b['locals'][i]['ty']]['s'] for i in range(1, b['arg_count'] + 1)
                         for x in ('std::fs::DirEntry', 'std::fs::Metadata', 'std::ffi::OsStr', 'std::fs::FileType')):
+                self.pure.discard(k)
+        # state transformers: an effect-free helper that writes through a `&mut` parameter (`listing.count_entry()`).
+        # Summarising it would havoc the whole object at every call; its few assignments are cheaper and exact
+        for k in list(self.pure):
+            b = self.B[k]
+            if b['def_kind'] in ('Fn', 'AssocFn') and not b.get('impl_trait') and \
+                    len([x for x in b['blocks'] if not x['cleanup']]) <= 12 and \
+                    any(self.T[b['locals'][i]['ty']]['k'] == 'ref' and self.T[b['locals'][i]['ty']].get('mut') for i in range(1, b['arg_count'] + 1)):
                 self.pure.discard(k)
         # outcome transformers: a pure helper that receives a Result (or an io::Error by value) decides what happens
         # to an error -- classified as absence, mapped, propagated.  The error-discipline rules must see that decision,
